@@ -8,21 +8,21 @@ _HIST = ('seeded swarm scenarios (chain 2..12 elements, run/continue/reset '
 REG = {
     'C01': dict(
         oracle='c01', profiles=[('dyn', 3, None), ('lock', 1, None)],
-        quick=12000, thorough=200000, thorough_cfg={'steps': (3, 250)},
+        quick=12000, thorough=120000, thorough_cfg={'steps': (3, 250)},
         vacuity=['pair_instants', 'held_instants', 'continued', 'F_STOP',
                  'F_RESET'],
         rule=_HIST + 'non-trivial = at least one adjacent pair compared at a '
         'recorded instant'),
     'C02': dict(
         oracle='c02', profiles=[('dyn', 3, None), ('lock', 1, None)],
-        quick=12000, thorough=200000, thorough_cfg={'steps': (3, 250)},
+        quick=12000, thorough=120000, thorough_cfg={'steps': (3, 250)},
         vacuity=['instants', 'eta_lt_1_pairs', 'continuations', 'F_RESET',
                  'redeclared_between_runs'],
         rule=_HIST + 'non-trivial = at least one instant with every torque '
         'relation evaluated'),
     'C03': dict(
         oracle='c03', profiles=[('dyn', 3, None), ('lock', 1, None)],
-        quick=12000, thorough=200000, thorough_cfg={'steps': (3, 250)},
+        quick=12000, thorough=120000, thorough_cfg={'steps': (3, 250)},
         vacuity=['instants', 'held_instants', 'continuation_boundaries',
                  'F_RESET'],
         rule=_HIST + 'non-trivial = at least one consecutive instant pair '
@@ -162,7 +162,7 @@ _DECL = ('declaration machine: a pool of elements of every kind, 1..30 '
          'post-assembly re-declarations; ')
 REG['C10'] = dict(
     oracle='c10', profiles=[('decl', 1, None)],
-    quick=20000, thorough=600000,
+    quick=20000, thorough=2000000,
     vacuity=['decls_judged', 'accepted', 'rejected', 'rerouting',
              'accepted_joint', 'accepted_gear', 'accepted_worm',
              'self_locking_True', 'self_locking_False',
@@ -178,7 +178,7 @@ REG['C10'] = dict(
     stubs=['none (declaration calls only)'])
 REG['C20'] = dict(
     oracle='c20', profiles=[('decl', 1, None)],
-    quick=20000, thorough=600000,
+    quick=20000, thorough=2000000,
     vacuity=['assemblies', 'motor_drives_nothing', 'duplicate_names_in_chain',
              'duplicate_names_outside_chain', 'self_locking_True',
              'self_locking_False', 'rerouted_before_assembly',
@@ -244,7 +244,7 @@ REG['C04'] = dict(
 
 REG['C19'] = dict(
     oracle='c19', profiles=[('quant', 1, None)],
-    quick=100000, thorough=3000000,
+    quick=100000, thorough=10000000,
     vacuity=['steps', 'op_new', 'op_add', 'op_sub', 'op_mul', 'op_div',
              'op_abs', 'op_neg', 'op_to', 'inplace_conversions',
              'raised_ValueError', 'raised_TypeError', 'F_BADPARAM',
